@@ -46,6 +46,7 @@ type stats struct {
 	DupLists     int                `json:"lists_with_same_backend_twice"`
 	Closed       int                `json:"attempts_all_failed"`
 	Runaway      int                `json:"runaway_attempts"`
+	Aborts       int                `json:"backend_reset_after_accept"`
 	ByStrategy   map[string]int     `json:"attempts_by_strategy"`
 	Batches      int                `json:"concurrent_batches"`
 	BatchConns   int                `json:"concurrent_connections"`
@@ -88,6 +89,42 @@ type tryLog struct {
 	tries   []string
 	runaway bool
 	off     bool // not collecting (concurrent batches)
+	// fault injection "backend accepts, then resets": while set, the forwarding goroutine is
+	// held at lb.dialed (after the handshake reached the backend, before the client's buffered
+	// bytes are flushed) until the backend has reset the connection
+	hold     chan struct{}
+	holdOnce *sync.Once
+}
+
+func (l *tryLog) arm() {
+	l.mu.Lock()
+	l.hold, l.holdOnce = make(chan struct{}), &sync.Once{}
+	l.mu.Unlock()
+}
+
+func (l *tryLog) disarm() (fired bool) {
+	l.mu.Lock()
+	defer l.mu.Unlock()
+	if l.hold == nil {
+		return false
+	}
+	select {
+	case <-l.hold:
+		fired = true
+	default:
+	}
+	l.hold, l.holdOnce = nil, nil
+	return fired
+}
+
+// backendReset is called by the backend once it has reset the connection.
+func (l *tryLog) backendReset() {
+	l.mu.Lock()
+	h, o := l.hold, l.holdOnce
+	l.mu.Unlock()
+	if h != nil {
+		o.Do(func() { close(h) })
+	}
 }
 
 const maxTries = 24
@@ -105,6 +142,19 @@ func (l *tryLog) snapshot() ([]string, bool) {
 }
 
 func (l *tryLog) onEvent(_ string, name string, kv []any) {
+	if name == "lb.dialed" {
+		l.mu.Lock()
+		h := l.hold
+		l.mu.Unlock()
+		if h != nil {
+			select {
+			case <-h:
+				time.Sleep(2 * time.Millisecond) // let the RST arrive
+			case <-time.After(5 * time.Second):
+			}
+		}
+		return
+	}
 	if name != "lb.try" {
 		return
 	}
@@ -171,6 +221,7 @@ func (r *registry) ch(tag string) chan *literig.Accepted {
 }
 
 var reg registry
+var theLog = &tryLog{}
 var tagSeq atomic.Int64
 
 func readFrame(c net.Conn) ([]byte, error) {
@@ -221,6 +272,15 @@ func newBackend(t *testing.T, addr string) *literig.Backend {
 			host = string(hs[i : i+int(ln)])
 		}
 		a.Tag = strings.ToLower(strings.SplitN(host, ".", 2)[0])
+		if strings.HasPrefix(a.Tag, "x") {
+			// fault: the backend got the handshake, now it resets the connection
+			if tc, ok := a.Conn.(*net.TCPConn); ok {
+				_ = tc.SetLinger(0)
+			}
+			_ = a.Conn.Close()
+			theLog.backendReset()
+			return
+		}
 		reg.ch(a.Tag) <- a
 		// one byte back: it reaches the client only through the running pipe, i.e. after TrackConnection
 		_, _ = a.Conn.Write([]byte{0x2a})
@@ -232,11 +292,15 @@ func newBackend(t *testing.T, addr string) *literig.Backend {
 // the forwarding pipe runs (an echo byte came back), or closed the client.
 // settled is false when neither happened in time.
 func connect(t *testing.T, rig *literig.Rig, stop func() bool) (c *conn, settled bool) {
+	return connectTag(t, rig, stop, "c")
+}
+
+func connectTag(t *testing.T, rig *literig.Rig, stop func() bool, prefix string) (c *conn, settled bool) {
 	cl, err := rig.Dial()
 	if err != nil {
 		t.Fatal(err)
 	}
-	tag := "c" + strconv.Itoa(int(tagSeq.Add(1)))
+	tag := prefix + strconv.Itoa(int(tagSeq.Add(1)))
 	host := tag + ".lb.ex"
 	if tagSeq.Load()%2 == 0 {
 		host = strings.ToUpper(tag) + ".LB.ex"
@@ -275,9 +339,22 @@ func connect(t *testing.T, rig *literig.Rig, stop func() bool) (c *conn, settled
 	return nil, true
 }
 
+// countOff is set once a count did not settle: later waits are kept short (the mismatch is
+// already on record, there is no point in waiting five seconds for each further one).
+var countOff atomic.Bool
+
 func waitCount(sm *lite.StrategyManager, want int) int {
 	var n int
-	for i := 0; i < 25000; i++ {
+	limit := 25000
+	if countOff.Load() {
+		limit = 250
+	}
+	defer func() {
+		if n != want {
+			countOff.Store(true)
+		}
+	}()
+	for i := 0; i < limit; i++ {
 		n = int(sm.ActiveConnections())
 		if n == want {
 			return n
@@ -305,7 +382,7 @@ func TestBalance(t *testing.T) {
 	lap := func(name string) { st.Timing[name] = time.Since(t0).Seconds(); t0 = time.Now() }
 	rng := rand.New(rand.NewSource(tracefmt.Seed()))
 
-	tl := &tryLog{}
+	tl := theLog
 	ctl := sched.New(nil)
 	ctl.OnEvent = tl.onEvent
 	ctl.Install()
@@ -423,6 +500,34 @@ func TestBalance(t *testing.T) {
 				_ = c.be.Conn.Close()
 				tw.Emit(tracefmt.Rec{"ev": "close", "id": c.id})
 				tw.Emit(tracefmt.Rec{"ev": "count", "n": waitCount(sm, len(open))})
+				continue
+			}
+			if len(up) > 0 && rng.Intn(4) == 0 {
+				// fault: the backend that accepts this connection resets it right after the handshake
+				tl.reset()
+				tl.arm()
+				fc, fsettled := connectTag(t, rig, func() bool { _, r := tl.snapshot(); return r }, "x")
+				fired := tl.disarm()
+				ftries, frun := tl.snapshot()
+				nextID++
+				if fc != nil { // cannot happen: an x backend never echoes
+					_ = fc.client.Close()
+				}
+				switch {
+				case frun || !fsettled:
+					tw.Emit(tracefmt.Rec{"ev": "attempt", "id": nextID, "tries": cpss(ftries), "result": "runaway"})
+					st.Runaway++
+				case fired:
+					tw.Emit(tracefmt.Rec{"ev": "abort", "id": nextID, "tries": cpss(ftries)})
+					st.Aborts++
+				default:
+					tw.Emit(tracefmt.Rec{"ev": "attempt", "id": nextID, "tries": cpss(ftries), "result": "closed"})
+				}
+				st.Attempts++
+				tw.Emit(tracefmt.Rec{"ev": "count", "n": waitCount(sm, len(open))})
+				if frun || !fsettled {
+					break
+				}
 				continue
 			}
 			tl.reset()
